@@ -377,7 +377,7 @@ var precCost = map[string]bool{"Quo": true, "Sqrt": true, "SetRat": true, "SetFl
 	"Parse": true, "SetString": true, "Scan": true, "Sscanf": true, "UnmarshalText": true, "UnmarshalJSON": true, "TextCopy": true, "JSONCopy": true}
 
 const maxSpread = 6000
-const maxWorkPrec = 60000
+const maxWorkPrec = 20000
 
 // costGuard keeps the simulation away from operations whose cost is
 // proportional to an exponent (difference): Add/Sub/FMA shift one mantissa by
